@@ -10,6 +10,7 @@ by the harness, 0 = felt.Zero). Chains are written GENESIS FIRST.
   served REQ B | latest N H   something the source answered                              -> ok
   S N H | R N H | RF N H  observed commit (stored / reverted / RevertHead failed)    -> ok | reject <why>
   N N H | G SN SH EN EH   observed feed send (new head / reorg range)                -> ok | reject <why>
+  force-S N H P           push a block the harness has recorded as stored-but-unverified            -> ok
   force-R N H             pop the head without the evidence check (after a recorded reject)  -> ok
   spec-end                -> `chain=<num:hash,...> owed=<k> pending=<k>`
   rounds K src B* | loc B*   canonical sequential schedule, K rounds, against a stable source
@@ -17,7 +18,7 @@ by the harness, 0 = felt.Zero). Chains are written GENESIS FIRST.
   isrev NEXT (N H | -) loc B*   -> `none` | `some <lpv>`
   succ B loc B*           -> stored | badNumber | parentMismatch
   sub64 A B               -> decimal
-  cfg Z N                 model variant (zeroGuard numCheck, 0/1); default = `Cfg.asFound`  -> ok
+  cfg Z N C               model variant (zeroGuard numCheck confirmHead, 0/1); default = `Cfg.asFound`  -> ok
 -/
 open Juno.Proto Juno.C06
 
@@ -67,7 +68,7 @@ structure St where
 def bit? (s : String) : Option Bool :=
   if s == "1" then some true else if s == "0" then some false else none
 
-def stepSpec (cfg : Cfg) (s : Spec) (line : String) : Spec × String :=
+def stepSpec (cfg : Cfg) (strict : Bool) (s : Spec) (line : String) : Spec × String :=
   match words line with
   | "spec-init" :: bs =>
     match chain? bs with
@@ -114,21 +115,30 @@ def stepSpec (cfg : Cfg) (s : Spec) (line : String) : Spec × String :=
       if hd.num == n && hd.hash == h then ({ s with chain := tl, pending := hd :: s.pending }, "ok")
       else (s, "reject revert-not-of-head")
     | _, _, _ => (s, "bad-op")
+  | ["force-S", n, h, p] =>
+    -- continue after a store the harness has already recorded as unverified
+    match n.toNat?, h.toNat?, p.toNat? with
+    | some n, some h, some p =>
+      ({ s with chain := ⟨n, h, p, false⟩ :: s.chain, pending := [],
+                owed := s.owed ++ reorgObs (rangeOf s.pending) ++ [Obs.newHead n h] }, "ok")
+    | _, _, _ => (s, "bad-op")
   | ws =>
     match specEv? ws with
     | none => (s, "bad-op")
     | some e =>
-      match s.step e with
+      match s.step strict e with
       | .ok s' => (s', "ok")
       | .error r => (s, "reject " ++ r.name)
 
 def stepLine (st : St) (line : String) : St × String :=
   match words line with
-  | ["cfg", z, n] =>
-    match bit? z, bit? n with
-    | some z, some n => ({ st with cfg := ⟨z, n⟩ }, "ok")
-    | _, _ => (st, "bad-op")
-  | ["cfg?"] => (st, s!"{st.cfg.zeroGuard} {st.cfg.numCheck}")
-  | _ => let (s', out) := stepSpec st.cfg st.spec line; ({ st with spec := s' }, out)
+  | ["cfg", z, n, c] =>
+    match bit? z, bit? n, bit? c with
+    | some z, some n, some c => ({ st with cfg := ⟨z, n, c⟩ }, "ok")
+    | _, _, _ => (st, "bad-op")
+  | ["cfg?"] => (st, s!"{st.cfg.zeroGuard} {st.cfg.numCheck} {st.cfg.confirmHead}")
+  | _ =>
+    -- the acceptor is strict (no revert on a successor block) exactly when the code confirms the head
+    let (s', out) := stepSpec st.cfg st.cfg.confirmHead st.spec line; ({ st with spec := s' }, out)
 
 def main : IO Unit := loop stepLine ⟨Cfg.asFound, Spec.init []⟩
